@@ -9,7 +9,7 @@ Definition ctxk (k : stop_mode) : bool := match k with KCtx | KDeadline | KCance
 Definition early (m : mpc) : bool := match m with M0 | M1 => true | _ => false end.
 Definition locked (m : mpc) : bool := match m with M1 | M2 | M3 | M4 => true | _ => false end.
 Definition unreaped (m : mpc) : bool := match m with M0 | M1 | M2 => true | _ => false end.
-Definition mon_ok (n : npc) : bool := match n with NStop P2 | NStop P3 | NStop P4 => false | _ => true end.
+Definition mon_ok (n : npc) : bool := match n with NStop PT | NStop PK | NStop P2 | NStop P3 | NStop P4 => false | _ => true end.
 Definition user_ok (u : upc) : bool := match u with UStop _ => false | _ => true end.
 
 Definition Inv (s : st) : Prop :=
@@ -20,12 +20,13 @@ Definition Inv (s : st) : Prop :=
   (fired s = true -> userpc s = UDone /\ ctx_done s = true) /\
   (userpc s = UDone -> fired s = true) /\
   mon_ok (monpc s) = true /\
-  killpc s = K0 /\
+  (rw_done s = true -> gk s = true) /\
   (unreaped (mainpc s) = true -> reaped s = false) /\
   (unreaped (mainpc s) = false -> reaped s = true) /\
   (w_done s = true -> gk s = true) /\
   (gk s = true -> no_ingroup_alive (tbl s) = true) /\
   leaders_in (tbl s) = true /\
+  tbl_ok (tbl s) = true /\
   (mainpc s = MDone -> is_running s = false /\ (fired s = true -> gk s = true)).
 
 Lemma inv_init : forall sm km t, Inv (init sm km t).
@@ -34,13 +35,13 @@ Proof. intros; unfold Inv; simpl; repeat split; intros; try discriminate; auto. 
 Lemma step_modes : forall s l s', step s l = Some s' -> smode s' = smode s /\ kmode s' = kmode s /\ prog s' = prog s.
 Proof.
   intros s l s' H. destruct l; simpl in H;
-    unfold main_step, user_step, mon_step, stop_step, watch_step, delay_step, kill_step, proc_step in H;
+    unfold main_step, user_step, mon_step, stop_step, watch_step, runwatch_step, proc_step in H;
     crush_step; simpl; auto.
 Qed.
 
 Ltac tbl_facts :=
   eauto using kill_group_no_ingroup, pstep_no_ingroup, term_leader_no_ingroup, pstep_leaders_in,
-    kill_group_leaders_in, term_leader_leaders_in.
+    kill_group_leaders_in, term_leader_leaders_in, pstep_tbl_ok, kill_group_tbl_ok, term_leader_tbl_ok, root_tbl_ok.
 
 Ltac inv_solve :=
   repeat match goal with H : _ && _ = true |- _ => apply andb_true_iff in H; destruct H end;
@@ -50,14 +51,14 @@ Ltac inv_solve :=
   try (match goal with |- context [root_proc ?t] => destruct t; reflexivity end);
   try solve [exfalso; match goal with x : st |- _ => destruct (mainpc x) eqn:?; simpl in *; intuition (try congruence; try discriminate) end].
 
-Lemma inv_step : forall s l s', executes s = true -> ctxk (kmode s) = true -> Inv s -> step s l = Some s' -> Inv s'.
+Lemma inv_step : forall s l s', executes s = true -> ctxk (kmode s) = true -> no_outside_holder (prog s) = true ->
+  Inv s -> step s l = Some s' -> Inv s'.
 Proof.
-  intros s l s' He Hk I H.
-  destruct I as (I1 & I2 & I3 & I4 & I5 & I6 & I7 & I8 & I9 & I10 & I11 & I12 & I13 & I14).
+  intros s l s' He Hk Hok I H. pose proof (root_tbl_ok _ Hok) as Hroot.
+  destruct I as (I1 & I2 & I3 & I4 & I5 & I6 & I7 & I8 & I9 & I10 & I11 & I12 & I13 & I15 & I14).
   unfold is_on in *.
   destruct l; simpl in H;
-    unfold main_step, user_step, mon_step, stop_step, watch_step, delay_step, kill_step, proc_step, mu_free, is_on in H.
-  - crush_step; inv_solve.
+    unfold main_step, user_step, mon_step, stop_step, watch_step, runwatch_step, proc_step, mu_free, is_on in H.
   - crush_step; inv_solve.
   - crush_step; inv_solve.
   - crush_step; inv_solve.
